@@ -1152,6 +1152,9 @@ class Lexer:
         comment_depth = 1
 
         while True:
+            # Lines can be indented, or blank.
+            self.accept(self.RE_WHITESPACE)
+
             if match := self.RE_TAG_NAME.match(self.source, self.pos):
                 tag_name = match.group()
                 self.pos += match.end() - match.start()
